@@ -557,8 +557,13 @@ pub fn describe_outcomes(outcomes: &[(usize, Outcome)]) -> Vec<String> {
 /// One generated case for property `prop` under `profile`.
 pub fn run_book_case(prop: &'static str, profile: Profile, ctx: &Ctx, idx: u64, rec: &mut Recorder) {
     let mut rng = Rng::for_case(ctx.seed, prop, idx);
-    let (ledger, outcomes, state, labels) = bookgen::gen_case(&mut rng, profile);
-    run_book_ledger(prop, &ledger, &outcomes, &state, &labels, rec);
+    let (ledger, outcomes, state, mut labels) = bookgen::gen_case(&mut rng, profile);
+    // a quarter of the cases reach their accounts and commodities through declared aliases
+    let alias_seed = if rng.chance(1, 4) { Some(rng.next_u64()) } else { None };
+    if alias_seed.is_some() {
+        labels.push("written-through-aliases".into());
+    }
+    run_book_ledger_aliased(prop, &ledger, &outcomes, &state, &labels, rec, alias_seed);
 }
 
 pub fn run_book_ledger(
@@ -569,7 +574,31 @@ pub fn run_book_ledger(
     labels: &[String],
     rec: &mut Recorder,
 ) {
-    let rendered = ledger.render();
+    run_book_ledger_aliased(prop, ledger, outcomes, state, labels, rec, None)
+}
+
+pub fn run_book_ledger_aliased(
+    prop: &'static str,
+    ledger: &Ledger,
+    outcomes: &[(usize, Outcome)],
+    state: &State,
+    labels: &[String],
+    rec: &mut Recorder,
+    alias_seed: Option<u64>,
+) {
+    let declared;
+    let (ledger, rendered) = match alias_seed {
+        None => (ledger, ledger.render()),
+        Some(seed) => {
+            let mut r = Rng::for_case(seed, "alias-plan", 0);
+            let plan = crate::gen::alias::AliasPlan::random(&mut r, ledger);
+            declared = plan.declare(ledger);
+            let mut namer = crate::gen::alias::RandomNamer::new(&plan, seed, 50);
+            let rendered = declared.render_named(&mut namer);
+            rec.count_n("alias-substitutions", namer.substitutions);
+            (&declared, rendered)
+        }
+    };
     let files = vec![(ops::ROOT.to_string(), rendered.text.clone())];
     rec.op("report::process", &rendered.text);
     // generated magnitudes keep every sum and every written price product inside the decimal
